@@ -61,6 +61,9 @@ struct C04 : Property
 		case 3: // long tokens
 		{
 			size_t n = (size_t)r.pick(std::vector<int>{31, 32, 33, 63, 64, 65, 127, 128, 129, 700, 3000});
+			// rarely a really large token (a reused parser keeps - or trims - the buffer it grew for it), followed later by medium ones
+			if (r.chance(1, 60))
+				n = (size_t)r.pick(std::vector<int>{70000, 140000, 9000, 20000});
 			switch (r.below(4))
 			{
 			case 0: s = "\"" + std::string(n, 'x') + (r.chance(1, 2) ? "\"" : ""); break;
